@@ -1246,3 +1246,64 @@ impl ClearVOBitsAfterPrepare {
         }
     }
 }
+
+/// Verification hooks: a read-only view of line/block state and of the hole search.
+#[cfg(mmtk_verif)]
+pub struct VerifImmixBlock {
+    pub start: Address,
+    pub state_byte: u8,
+    /// `[start, end)` of every hole `get_next_available_lines` yields for this block
+    pub holes: Vec<(Address, Address)>,
+    pub line_marks: Vec<u8>,
+}
+
+#[cfg(mmtk_verif)]
+pub struct VerifImmixView {
+    pub name: &'static str,
+    pub line_mark_state: u8,
+    pub line_unavail_state: u8,
+    pub blocks: Vec<VerifImmixBlock>,
+}
+
+#[cfg(mmtk_verif)]
+impl<VM: VMBinding> ImmixSpace<VM> {
+    pub fn verif_view(&self) -> VerifImmixView {
+        let mut blocks = vec![];
+        for chunk in self.chunk_map.all_chunks() {
+            for block in chunk.iter_region::<Block>() {
+                let state_byte = Block::MARK_TABLE.load_atomic::<u8>(block.start(), Ordering::SeqCst);
+                if BlockState::from(state_byte) == BlockState::Unallocated {
+                    continue;
+                }
+                let mut holes = vec![];
+                let mut cursor = block.start_line();
+                while cursor < block.end_line() {
+                    match self.get_next_available_lines(cursor) {
+                        Some((s, e)) => {
+                            holes.push((s.start(), e.start()));
+                            if e <= cursor {
+                                break;
+                            }
+                            cursor = e;
+                        }
+                        None => break,
+                    }
+                }
+                let table = block.line_mark_table();
+                let line_marks = (0..Block::LINES).map(|i| table.get(i)).collect();
+                blocks.push(VerifImmixBlock {
+                    start: block.start(),
+                    state_byte,
+                    holes,
+                    line_marks,
+                });
+            }
+        }
+        VerifImmixView {
+            name: self.get_name(),
+            line_mark_state: self.line_mark_state.load(Ordering::Acquire),
+            line_unavail_state: self.line_unavail_state.load(Ordering::Acquire),
+            blocks,
+        }
+    }
+}
